@@ -250,6 +250,33 @@ func runFixtures(c *core.Ctx, engines ...string) {
 			fb, bb, _ := sc.Find("R17.10", "BadLeak|mutex-released")
 			c.FixtureResult("lockleak:GoodLeak", false, !fg || bg)
 			c.FixtureResult("lockleak:BadLeak", true, fb && bb)
+		case "walkloop":
+			for _, tc := range []struct {
+				name string
+				want bool
+			}{{"GoodWalk", false}, {"BadWalk", true}} {
+				f := fp.Func("", tc.name)
+				if f == nil {
+					c.Hard("fixture func %s missing", tc.name)
+					continue
+				}
+				upd, inLoop, bad := walkLoopSkips(fp, f)
+				c.FixtureResult("walkloop:"+tc.name, tc.want, upd == nil || !inLoop || bad != "")
+			}
+		case "rangecb":
+			for _, tc := range []struct {
+				name string
+				want bool
+			}{{"GoodRange", false}, {"BadRange", true}} {
+				f := fp.Func("", tc.name)
+				if f == nil {
+					c.Hard("fixture func %s missing", tc.name)
+					continue
+				}
+				r15RangeCallbacksIn(sc, fp, f, "R15.15")
+				found, failed, _ := sc.Find("R15.15", tc.name+"|range-callback")
+				c.FixtureResult("rangecb:"+tc.name, tc.want, !found || failed)
+			}
 		case "paging":
 			for _, tn := range []string{"GoodDir", "BadDir"} {
 				n := fp.Named("", tn)
@@ -259,6 +286,18 @@ func runFixtures(c *core.Ctx, engines ...string) {
 				}
 				f := methodsOf(fp, n)["ReadDir"]
 				r16Window(sc, fp, typeKey(n), f, listingSlices(f))
+			}
+			if n := fp.Named("", "PulledDir"); n != nil {
+				f := methodsOf(fp, n)["ReadDir"]
+				r16CursorMovesByPage(sc, fp, typeKey(n), f, listingSlices(f), "R16.12")
+				g := methodsOf(fp, fp.Named("", "GoodDir"))["ReadDir"]
+				r16CursorMovesByPage(sc, fp, "GoodDir", g, listingSlices(g), "R16.12")
+				fpd, bpd, _ := sc.Find("R16.12", "PulledDir.ReadDir|cursor-moves-by-the-page")
+				fgd, bgd, _ := sc.Find("R16.12", "GoodDir.ReadDir|cursor-moves-by-the-page")
+				c.FixtureResult("paging:GoodDir.cursor", false, !fgd || bgd)
+				c.FixtureResult("paging:PulledDir.cursor", true, fpd && bpd)
+			} else {
+				c.Hard("fixture type PulledDir missing")
 			}
 			fg, bg, _ := sc.Find("R16.1", "GoodDir.ReadDir|eof-exit")
 			fb, bb, _ := sc.Find("R16.1", "BadDir.ReadDir|eof-exit")
